@@ -71,6 +71,23 @@ def pkceOK (ch : CodeChallenge) (verifier : String) : Bool :=
   verifier != "" &&
     (if ch.Method == "S256" then ch.Challenge == "S256(" ++ verifier ++ ")" else ch.Challenge == verifier)
 
+/-- round 4c: the PKCE parameters of an authorization request as they TRAVELLED in one place (the query, or the signed request object);
+    "" = not sent there -/
+structure SentPkce where
+  challenge : String := ""
+  method : String := ""
+  deriving Repr, Inhabited, DecidableEq
+
+/-- round 4c: the code challenge an authorization request CARRIED, as an onlooker decides it from what the client sent: a parameter of
+    an accepted request object supersedes the query's (OIDC Core 6.1; the library's documented rule "overwrites present values from the
+    Request Object", per parameter), a parameter the object does not set is the query's.  `objAccepted`: the request had a `request`
+    parameter, request objects are supported and the provider accepted the request.  A request carried a challenge iff the effective
+    code_challenge is not empty. -/
+def effectiveChallenge (objAccepted : Bool) (q o : SentPkce) : Option CodeChallenge :=
+  let c := if objAccepted && o.challenge != "" then o.challenge else q.challenge
+  let m := if objAccepted && o.method != "" then o.method else q.method
+  if c == "" then none else some { Challenge := c, Method := m }
+
 /-- is the caller authenticated as - or, for a public client, does it identify as - client `c`? -/
 def callerIs (m : MonState) (now : Int) (c : OPClient) (p : Presented) : Bool :=
   if c.auth == "none" then p.clientID == c.id && p.assertion.isNone
